@@ -32,4 +32,13 @@ UNITS = [
         'constants': {'words': None},
         'functions': ['is_write_pending'],
     },
+    {
+        'name': 'ScqGen',
+        'source': 'xenium/detail/nikolaev_scq.hpp',
+        'class': 'nikolaev_scq',
+        'tu': '#include <xenium/detail/nikolaev_scq.hpp>\n',
+        'constants': {'cacheline_size': None, 'indexes_per_cacheline': None},
+        'call_map': {'find_last_bit_set': 'flbs'},
+        'functions': ['diff', 'remap_index', 'calc_remap_shift'],
+    },
 ]
